@@ -23,6 +23,9 @@ func tarHdrEngine(c *Ctx) {
 		}
 		isHdr := tartrans.IsTarHeaderForVerif(b)
 		kind := "plain"
+		if len(b) < 10 {
+			kind = "short" // Decompress peeks at ten bytes: a shorter stream is an error before any detection
+		}
 		if !isHdr && len(b) >= 10 {
 			switch tartrans.DetectCompression(b[:10]) {
 			case tartrans.Bzip2:
